@@ -86,6 +86,7 @@ Lemma try_create_only s buyer n s1 :
   blacklisted s1 = blacklisted s.
 Proof.
   unfold try_create_tickets. intros Hc.
+  apply bind_ok in Hc. destruct Hc as (u0 & _ & Hc).
   apply bind_ok in Hc. destruct Hc as (u3 & Hr & Hc). apply require_ok' in Hr.
   assert (Hnone : range s buyer = None) by (destruct (range s buyer); [discriminate|reflexivity]).
   apply bind_ok in Hc. destruct Hc as (m & _ & Hc). apply bind_ok in Hc. destruct Hc as (u4 & _ & Hc).
